@@ -7,6 +7,7 @@ import (
 	"fmt"
 	"io"
 	"reflect"
+	"sort"
 	"strings"
 
 	"verifsim/core"
@@ -29,8 +30,8 @@ func init() {
 		Quick: 100000, Thorough: 3000000,
 		Run:        runC16,
 		Rule:       "one run = one generated (type, value); evaluations = individual MarshalTo calls, one per destination length L in 0..Size(v)+16 and per buffer shape (cap==len, cap extends into the trailing canary): cut points are exhaustive per value, values are sampled. non-trivial = the value encodes to at least 2 bytes (so that at least one cut lands inside its output); distinct = distinct hash of (type, Marshal(v) bytes)",
-		FaultKinds: []string{"empty-strings-sliced-from-non-empty-ones", "destination-shorter-than-size", "destination-exact", "destination-longer", "cap-extends-past-len", "value-after-other-values-of-the-same-type", "cut-inside-varint-or-tag", "cut-inside-bytes-or-string", "cut-inside-embedded-message", "cut-inside-repeated", "cut-inside-map-entry", "cut-inside-custom-message", "cut-inside-fixed"},
-		ProbeNames: []string{"values", "values-with-multi-entry-maps(compared canonically)", "values-map-free(compared bytewise)", "size==0", "size>=128(two-byte length prefixes)", "size>=1KiB", "custom-or-Message-types", "unencodable-skipped", "well-formedness-checked(reference parser)"},
+		FaultKinds: []string{"large-value", "empty-strings-sliced-from-non-empty-ones", "destination-shorter-than-size", "destination-exact", "destination-longer", "cap-extends-past-len", "value-after-other-values-of-the-same-type", "cut-inside-varint-or-tag", "cut-inside-bytes-or-string", "cut-inside-embedded-message", "cut-inside-repeated", "cut-inside-map-entry", "cut-inside-custom-message", "cut-inside-fixed"},
+		ProbeNames: []string{"values", "values-with-multi-entry-maps(compared canonically)", "values-map-free(compared bytewise)", "size==0", "size>=128(two-byte length prefixes)", "size>=1KiB", "custom-or-Message-types", "unencodable-skipped", "well-formedness-checked(reference parser)", "large-value(destination lengths sampled)"},
 		Real:       []string{"proto.MarshalTo, proto.Size, proto.Marshal, proto.Unmarshal compiled from /repo's working tree with sync and sync/atomic redirected to the shim (deterministic simulated sync.Pool, pristine library state before every run)"},
 		Model:      []string{"destination buffer (simio.GuardedBuf: prefill pattern, canaries on both sides)", "well-behaved user Message / gogo-style custom message implementations"},
 		Assumptions: []string{
@@ -119,6 +120,78 @@ type c16Scenario struct {
 	// SlicedEmpties: every empty string in the values is the empty tail of a
 	// non-empty string (s[len(s):], non-nil data pointer) instead of "".
 	SlicedEmpties bool `json:"sliced_empties,omitempty"`
+	// Large: the value was made large on purpose; destination lengths are sampled.
+	Large bool `json:"large,omitempty"`
+}
+
+// c16Large is set for the run in progress (one run at a time per process).
+var c16Large bool
+
+// c16Inflate makes the first string, []byte or slice of scalars reachable from v
+// large: n bytes, or n/16 + 1 elements (at least 257).
+func c16Inflate(v reflect.Value, n, depth int) bool {
+	if depth > 8 || !v.IsValid() {
+		return false
+	}
+	switch v.Kind() {
+	case reflect.Ptr:
+		if v.IsNil() {
+			return false
+		}
+		return c16Inflate(v.Elem(), n, depth+1)
+	case reflect.String:
+		if !v.CanSet() {
+			return false
+		}
+		v.SetString(strings.Repeat("large-", n/6+1)[:n])
+		return true
+	case reflect.Slice:
+		if !v.CanSet() {
+			return false
+		}
+		ek := v.Type().Elem().Kind()
+		if ek == reflect.Uint8 {
+			b := reflect.MakeSlice(v.Type(), n, n)
+			for i := 0; i < n; i += 7 {
+				b.Index(i).SetUint(uint64(i))
+			}
+			v.Set(b)
+			return true
+		}
+		switch ek {
+		case reflect.Bool, reflect.Int, reflect.Int32, reflect.Int64, reflect.Uint, reflect.Uint32, reflect.Uint64, reflect.Float32, reflect.Float64, reflect.String:
+			m := n/16 + 1
+			if m < 257 {
+				m = 257
+			}
+			b := reflect.MakeSlice(v.Type(), m, m)
+			for i := 0; i < m; i++ {
+				if i < v.Len() {
+					b.Index(i).Set(v.Index(i))
+				} else if ek == reflect.String {
+					b.Index(i).SetString("e")
+				} else if ek == reflect.Bool {
+					b.Index(i).SetBool(i%2 == 0)
+				} else if ek == reflect.Float32 || ek == reflect.Float64 {
+					b.Index(i).SetFloat(float64(i))
+				} else if ek == reflect.Int || ek == reflect.Int32 || ek == reflect.Int64 {
+					b.Index(i).SetInt(int64(i))
+				} else {
+					b.Index(i).SetUint(uint64(i))
+				}
+			}
+			v.Set(b)
+			return true
+		}
+		return false
+	case reflect.Struct:
+		for i := 0; i < v.NumField(); i++ {
+			if v.Type().Field(i).PkgPath == "" && c16Inflate(v.Field(i), n, depth+1) {
+				return true
+			}
+		}
+	}
+	return false
 }
 
 var c16Backing = strings.Repeat("backing", 3)
@@ -214,7 +287,18 @@ func runC16(r *core.Run) {
 	}
 	if r.Scenario == nil {
 		sc.SlicedEmpties = t.Chance(1, 3)
+		if t.Chance(1, 250) {
+			// one large value: a string / []byte beyond 64 KiB (or 1 MiB), or a
+			// repeated field with more than 255 / 65535 elements
+			n := []int{65535, 65536, 65537, 70001, 1<<20 + 3}[t.Pick(3, 3, 3, 2, 1)]
+			if c16Inflate(vals[len(vals)-1], n, 0) {
+				sc.Large = true
+				vals = vals[len(vals)-1:]
+				r.Fault("large-value")
+			}
+		}
 	}
+	c16Large = sc.Large
 	if sc.SlicedEmpties {
 		r.Fault("empty-strings-sliced-from-non-empty-ones")
 		for _, v := range vals {
@@ -226,7 +310,7 @@ func runC16(r *core.Run) {
 		want, ok := c16CheckValue(r, ty, v, i == 0)
 		if r.V != nil {
 			if r.Scenario == nil {
-				out := &c16Scenario{Before: encs, Value: want, SlicedEmpties: sc.SlicedEmpties}
+				out := &c16Scenario{Before: encs, Value: want, SlicedEmpties: sc.SlicedEmpties, Large: sc.Large}
 				var shape int
 				var sp, nm bool
 				if n, _ := fmt.Sscanf(ty.name, "proto-shape-%d/%t/%t", &shape, &sp, &nm); n == 3 {
@@ -287,9 +371,15 @@ func c16CheckValue(r *core.Run, ty *simType, v reflect.Value, first bool) ([]byt
 	if r.Tier == "thorough" || size >= 16380 {
 		maxSize = 20 << 10
 	}
+	sampled := false
 	if size > maxSize {
-		r.Probe("unencodable-skipped")
-		return nil, false
+		if !c16Large {
+			r.Probe("unencodable-skipped")
+			return nil, false
+		}
+		// a deliberately large value: destination lengths are sampled
+		sampled = true
+		r.Probe("large-value(destination lengths sampled)")
 	}
 	if size == 0 {
 		r.Probe("size==0")
@@ -342,7 +432,37 @@ func c16CheckValue(r *core.Run, ty *simType, v reflect.Value, first bool) ([]byt
 	}
 
 	const prefill, canary = 0x5A, 0xC3
-	for L := 0; L <= size+16; L++ {
+	var lengths []int
+	if !sampled {
+		for L := 0; L <= size+16; L++ {
+			lengths = append(lengths, L)
+		}
+	} else {
+		seen := map[int]bool{}
+		add := func(L int) {
+			if L >= 0 && L <= size+16 && !seen[L] {
+				seen[L] = true
+				lengths = append(lengths, L)
+			}
+		}
+		for L := 0; L <= 24; L++ {
+			add(L)
+			add(size - L)
+			add(size + L)
+		}
+		for k := uint(5); k < 31; k++ {
+			for d := -2; d <= 2; d++ {
+				add(1<<k + d)
+				add(size - 1<<k + d)
+			}
+		}
+		for k := 1; k < 48; k++ {
+			add(k * size / 48)
+			add(k*size/48 + k%5)
+		}
+		sort.Ints(lengths)
+	}
+	for _, L := range lengths {
 		for shape := 0; shape < 2; shape++ {
 			r.Evaluations++
 			g := simio.NewGuarded(L, prefill, canary)
